@@ -212,17 +212,21 @@ def require_exercised(chk):
 
 def behaviours_for(tier, rng):
     if tier == "quick":
-        n, steps, every = 64, 120, 4
+        n, steps, every, full = 64, 140, 2, 4
     else:
-        n, steps, every = 320, 160, 1
+        n, steps, every, full = 320, 160, 1, 5
     behs = []
     for i in range(n):
         behs.append({
             "id": i, "seed": rng.randrange(1, 2 ** 31), "steps": steps,
             "check_every": every,
+            # at a check point the entities whose stored commands or
+            # snapshot changed are rebuilt and compared; every
+            # `full_every`-th check point (and the last) compares all
+            "full_every": full,
             # restarts and the snapshot-free copy need the disk back-end;
-            # every fourth history runs on the memory back-end
-            "memory": i % 4 == 3,
+            # about a quarter of the histories run on the memory back-end
+            "memory": rng.random() < 0.25,
         })
     return behs
 
